@@ -1,7 +1,7 @@
 """C06: trash-restore never clobbers an existing destination unless
 --overwrite is given."""
 import os
-from . import restore
+from . import restore, options
 from pyvc.scenario import Sandbox
 
 PROPERTY = 'C06'
@@ -11,6 +11,10 @@ LEVEL_NOTE = ('Restorer.restore_trashed_file: for every destination state '
               'pipeline: a refused entry stops the run with exit 1 and a '
               'message, later entries untouched')
 EXPECTED = [
+    'restore-options/overwrite-only-with-its-flag',
+    'restore-options/sort-key-maps-to-its-mode',
+    'restore-options/path-is-the-operand-under-the-current-directory-normalised',
+    'restore-options/trash-dir-is-the-option-value',
     'restore/refuses-any-existing-destination',
     'restore/refusal-only-when-destination-exists',
     'restore/move-source-is-the-payload',
@@ -26,6 +30,7 @@ def build(S, tier, seed):
     restore.restore_one_vc(S)
     restore.restore_twice_vc(S)
     restore.pipeline_vc(S)
+    options.restore_options_vc(S)
 
 
 def destination_battery(repo):
